@@ -1,4 +1,5 @@
-(* Integer enums as properties of an object: one object level whose properties are the scalar leaves of NestedP or integer enums
+(* Integer enums as properties of an object (since the integer enum is a leaf of NestedP this is the depth-0 case of nested_object_exact, kept
+   under its own name): one object level whose properties are the scalar leaves of NestedP or integer enums
    ({"type": "integer", "enum": [numbers]}), accepted iff valid - generator, method, tables and decoder against the reference semantics. *)
 From GJS Require Import Base Bounds IntSize Regex Schema GoType Gen Exec Valid ExecP GenP CoreP MethodP LevelP NestedP EnumP.
 
@@ -15,46 +16,6 @@ Notation gen := (Gen.gen idf cf defs).
 Notation dec := (Exec.dec fmt_ok env).
 Notation valid := (Valid.valid fmt_ok sdefs).
 
-Lemma dec_int_enum fd sc es x : dec (S (S fd)) (TEnum sc (TInt KInt) false es) x =
-  obind (dec (S fd) (TInt KInt) x) (fun v => if existsb (enum_eq (TInt KInt) v) es then Ok v else Err).
-Proof. reflexivity. Qed.
-
-Lemma int_enum_field fd fv c self fname k p l tbl kv sc :
-  int_enum_leaf p -> c_enum (s_con p) = Some l -> all_numbers_to_int l = Some tbl -> fname <> [] ->
-  match lookup k kv with
-  | Some x => int_value x ->
-      field_ok (dec (S (S (S fd)))) zero (default_val env dv_fuel) kv (pair_of (make_field defs c self fname k p (TEnum sc (TInt KInt) false tbl) (c_bounds (s_con p)))) = valid (S fv) p x
-  | None => mem k (c_required c) = false ->
-      field_ok (dec (S (S (S fd)))) zero (default_val env dv_fuel) kv (pair_of (make_field defs c self fname k p (TEnum sc (TInt KInt) false tbl) (c_bounds (s_con p)))) = true
-  end.
-Proof.
-  intros Hleaf He Ht Hn. destruct (lookup k kv) as [x|] eqn:Hl.
-  - intros [Hnull Hint]. rewrite (valid_int_enum_leaf fmt_ok sdefs fv p x l Hleaf He).
-    destruct Hleaf as (pc & l0 & -> & Hty & Hr & He0 & _ & _ & Hd & _). unfold make_field, pair_of. cbn [s_con]. rewrite Hd.
-    assert (Hcore : forall g z, in_range KInt z = true ->
-              obind (dec (S g) (TInt KInt) (JNum (mkNum (inject_Z z) true))) (fun v => if existsb (enum_eq (TInt KInt) v) tbl then Ok v else Err) =
-              if existsb (json_eqb (JNum (mkNum (inject_Z z) true))) l then Ok (GI z) else Err).
-    { intros g z Hr0. cbn [Exec.dec nlit_int nq]. rewrite Qis_int_inject, Qfloor_inject, Hr0. cbn [andb obind].
-      rewrite (int_enum_exact l tbl z Ht Hr0), (existsb_json_nums z (mkNum (inject_Z z) true) l (QArith_base.Qeq_refl _)). reflexivity. }
-    destruct (mem k (c_required c)).
-    + unfold field_ok. cbn [fst snd f_json f_ty f_name field_validators]. rewrite Hl, dec_int_enum.
-      destruct x; try (contradiction Hnull; reflexivity); try (cbn [Exec.dec obind]; reflexivity).
-      destruct (Hint n eq_refl) as [z [-> Hr0]]. rewrite (Hcore _ z Hr0). cbn [nq]. rewrite Qis_int_inject. cbn [andb].
-      destruct (existsb _ l); reflexivity.
-    + cbn [nillable_ty]. unfold field_ok. cbn [fst snd f_json f_ty f_name field_validators]. rewrite Hl.
-      assert (Hp : dec (S (S (S fd))) (TPtr (TEnum sc (TInt KInt) false tbl)) x =
-                   match x with JNull => Ok GNil | _ => obind (dec (S (S fd)) (TEnum sc (TInt KInt) false tbl) x) (fun v => Ok (GP v)) end) by reflexivity.
-      rewrite Hp, dec_int_enum.
-      destruct x; try (contradiction Hnull; reflexivity); try (cbn [Exec.dec obind]; reflexivity).
-      destruct (Hint n eq_refl) as [z [-> Hr0]]. rewrite (Hcore _ z Hr0). cbn [nq]. rewrite Qis_int_inject. cbn [andb].
-      destruct (existsb _ l); reflexivity.
-  - intros Hm. destruct Hleaf as (pc & l0 & -> & Hty & Hr & He0 & _ & _ & Hd & _). unfold make_field, pair_of. cbn [s_con]. rewrite Hd, Hm. cbn [nillable_ty].
-    unfold field_ok. cbn [fst snd f_json f_ty f_name field_validators]. rewrite Hl. reflexivity.
-Qed.
-
-Lemma int_enum_default_none p : int_enum_leaf p -> c_default (s_con p) = None.
-Proof. intros (c & l & -> & _ & _ & _ & _ & _ & Hd & _). exact Hd. Qed.
-
 (* one object level: every property a scalar leaf or an integer enum *)
 Theorem int_enum_objects_exact : forall f fd fv self sub s scope t bb kv,
   scope <> [] ->
@@ -70,15 +31,9 @@ Theorem int_enum_objects_exact : forall f fd fv self sub s scope t bb kv,
   is_ok (dec (S (S (S (S fd)))) t (JObj kv)) = valid (S (S (S fv))) s (JObj kv).
 Proof.
   intros f fd fv self sub s scope t bb kv Hsc Hp Hty Ha Haf Np Hreq Nn Hne Hprops Nk Hval Hg.
-  apply (level_with_leaves idf cf defs fmt_ok env sdefs Hms Hom f fd fv self sub s scope t bb kv int_enum_leaf Hsc Hp Hty Ha Haf Np Hreq Nn Hne); try assumption.
-  - intros k p Hin. destruct (Hprops k p Hin) as [Hl|Hl]; [left; exact Hl|right; split; [exact Hl|exact (int_enum_default_none p Hl)]].
-  - intros k p x Hin Hl. destruct (Hval k p x Hin Hl) as (H1 & H2 & H3 & H4 & H5 & _). split; [exact H1|]. split; [exact H2|]. split; [exact H3|]. split; [exact H4|exact H5].
-  - intros fname k p ty bp Hin Hinp Hleaf Hfn Hgen.
-    destruct (gen_int_enum_leaf idf cf defs Hms f self (scope ++ fname) p ty bp Hleaf Hgen) as (l & tbl & He & Ht & -> & ->).
-    pose proof (int_enum_field fd (S fv) (s_con s) self fname k p l tbl kv (scope ++ fname) Hleaf He Ht Hfn) as Hb.
-    destruct (lookup k kv) as [x|] eqn:El.
-    + destruct (Hval k p x Hinp El) as (_ & _ & _ & _ & _ & Hiv). exact (Hb (Hiv Hleaf)).
-    + exact Hb.
+  apply (level_with_leaves idf cf defs fmt_ok env sdefs Hms Hom f fd fv self sub s scope t bb kv (fun _ => False) Hsc Hp Hty Ha Haf Np Hreq Nn Hne); try assumption.
+  - intros k p Hin. left. destruct (Hprops k p Hin) as [Hl|Hl]; [exact Hl|]. do 7 right. exact Hl.
+  - intros fname k p ty bp _ _ [].
 Qed.
 End EnumObjects.
 
